@@ -23,9 +23,17 @@ PROP["jobs"] += tree_jobs()
 PROP["lean_modules"] += TREE_MODULES
 PROP["rule"] += TREE_RULE
 PROP["assumptions"] = list(PROP["assumptions"]) + TREE_ASSUME
+# arch-v2 shared sink (N source workers on one shared TaskNode subtree): Model/SharedSink.lean, Props/SharedSink.lean
+# (C01_v2_shared_*), Facts/SharedSink.lean, trace replay of the funnelshared runs (driver component sharedsink)
+from funnel_common import funnel_sharedsink_job, SHAREDSINK_MODULES, SHAREDSINK_STRENGTH, SHAREDSINK_ASSUME
+PROP["lean_modules"] += SHAREDSINK_MODULES
+PROP["jobs"].append(funnel_sharedsink_job("C01"))
+PROP["strength"] += SHAREDSINK_STRENGTH
+PROP["assumptions"] = list(PROP["assumptions"]) + SHAREDSINK_ASSUME
 
 META = {
     "text": 'Lean 4 theorems for every number of branches M, batch size n and every vote sequence/order of the arch-v2 fan-out arbiter (multiAckNacker): a position released as acked was voted ack by every branch (C01_ma_ack_unanimous); the acked set does not depend on the vote order (C01_ma_release_order_independent); simulation lemmas tie the monadic engine model (ackerCall/releaseLoop/voteLoop) to the pure arbiter. The executable model of the whole pass is tied to the real funnel.Worker by event-log equality; the C01 monitor (every acked record confirmed by every destination that received a piece of it, or filtered, or DLQ write confirmed) runs on every implementation trace. v1: C01_v1_source_ack_justified, _every_ack_event, _fanout_unanimous proved for every topology and event list of the v1 product model; real node graph tied by `pipe` trace acceptance.',
     "note": 'v1: proved for the product model. v2: arbiter, worker-acker and DLQ clauses proved; Monitor soundness is PROVED for the model for linear and one-level fan-out trees — the only shapes lifecycle-poc builds (source → processors → fan-out → per-branch processors → destination): PROVED for the model of the builder (Props/TreeShape workerTree_fan1/_kind/_tasks/_dests, monitor_sound_built; Props/TreeBuilt built_fan1/_kind/_dests/_nodup, buildWorkers_never_bug, monitor_sound_service: every tree of every configuration buildRunnablePipeline accepts; distinct task ids under IdSpaces = connector and processor ids do not meet, which the code does not check), the builder model tied to the real buildRunnablePipeline / buildSharedTail / AppendToEnd by the treeshape / appendtoend correspondence and Facts/TreeShape — RECORD SPLITTING INCLUDED (Props/MonSound: monitor_sound_linear, monitor_sound_fan1, the no-split forms monitor_sound_linear_nosplit / monitor_sound_nosplit_fan1 and the per-clause forms C01_v2_monitor_sound_*: every clause of the Lean trace monitor is silent on every run of the model, over multi-batch runs, any fuel/window/outcomes, under the decidable run hypotheses RootPreserving / FreshTags / sorted roots); for NESTED fan-out (a shape the engine API allows but the service never builds) the whole-pass claim rests on event-log equality with the model and on the monitor evaluated on every implementation trace (partial). Trusted: Lean kernel, factgen, harness/fakes, Go runtime.',
     "technique": 'Lean 4 invariant proofs over all vote sequences + model/implementation trace equality + Lean-defined trace monitor',
 }
+META["text"] += " Shared sink (N source workers on one shared subtree, Model/SharedSink.lean, every interleaving of doTask's sharedBoundary statements): C01_v2_shared_mutual_exclusion, _serializable (a root's log is a concatenation of complete single-worker sub-passes), _no_foreign_acks (every ack a worker consumes was produced by its own write in the same sub-pass), _poison_before_unlock / _poison_latch / _poisoned_entry_refused, _one_lock_per_branch / _lock_holder_progress / _no_deadlock, for every event list; statement order of doTask regenerated from worker.go; real concurrent runs replayed through the model (sharedsink)."
